@@ -88,7 +88,7 @@ func QuickRuns(id string) (int, int) {
 	case "C09":
 		return 250, 120
 	case "C02", "C03":
-		return 500, 120
+		return 600, 120
 	case "C04":
 		return 400, 120
 	case "C08":
@@ -102,11 +102,11 @@ func QuickRuns(id string) (int, int) {
 	case "C06":
 		return 1500, 120
 	case "C10":
-		return 120, 120
+		return 80, 120
 	case "C18":
-		return 100, 120
+		return 50, 120
 	case "C16":
-		return 30, 150
+		return 25, 150
 	case "C17":
 		return 150, 150
 	}
